@@ -1254,8 +1254,116 @@ def _inline_local_callables(view: FuncInfo) -> bool:
                 defs[tgt.id] = n.value
             elif isinstance(n.value, ast.Attribute) and isinstance(n.value.value, ast.Name) and n.value.attr in (_GROW | _SHRINK | {"__contains__"}) and stores.get(n.value.value.id, 0) <= 1:
                 defs[tgt.id] = n.value  # a bound method of a local collection
+    # local generator functions (`def visit(node): .. yield child`): consumed by `X.extend(visit(n))` or `for v in visit(n):`
+    gens: dict[str, ast.FunctionDef] = {}
+    for n in ast.walk(fn):
+        if isinstance(n, ast.FunctionDef) and n is not fn and stores.get(n.name) == 1 and n.name not in params and not n.decorator_list:
+            a = n.args
+            inner = [x for s_ in n.body for x in ast.walk(s_)]
+            if a.vararg or a.kwarg or a.kwonlyargs or a.defaults or not any(isinstance(x, ast.Yield) for x in inner):
+                continue
+            if any(isinstance(x, (ast.YieldFrom, ast.Await, ast.Global, ast.FunctionDef, ast.AsyncFunctionDef, ast.ClassDef, ast.Return, ast.Try, ast.With)) for x in inner):
+                continue
+            if any(isinstance(x, ast.Yield) and (x.value is None or not isinstance(parent(x), ast.Expr)) for x in inner):
+                continue
+            if any(isinstance(c, ast.Call) and isinstance(c.func, ast.Name) and c.func.id == n.name for c in inner):
+                continue
+            gens[n.name] = n
+    if gens:
+        def expand_gen(g: ast.FunctionDef, call: ast.Call, target: ast.expr, body: list[ast.stmt], at: ast.stmt) -> list[ast.stmt] | None:
+            pos_ = [p_.arg for p_ in [*g.args.posonlyargs, *g.args.args]]
+            if any(isinstance(x, ast.Starred) for x in call.args) or call.keywords or len(call.args) != len(pos_):
+                return None
+            if any(isinstance(x, (ast.Break, ast.Continue)) for b in body for x in ast.walk(b)):
+                return None
+            src_body = [_clone(s_) for s_ in g.body if not (isinstance(s_, ast.Expr) and isinstance(s_.value, ast.Constant)) and not isinstance(s_, ast.Nonlocal)]
+            stored = {n_.id for s_ in src_body for n_ in ast.walk(s_) if isinstance(n_, ast.Name) and isinstance(n_.ctx, ast.Store)} - {nm for s_ in g.body if isinstance(s_, ast.Nonlocal) for nm in s_.names}
+            prefix: list[ast.stmt] = []
+            ren: dict[str, str] = {}
+            for p_, val in zip(pos_, call.args):
+                if isinstance(val, ast.Name) and p_ not in stored:
+                    ren[p_] = val.id
+                else:
+                    new_ = p_ if p_ not in taken else f"{p_}__{g.name.strip('_')}"
+                    while new_ in taken and new_ != p_:
+                        new_ += "_"
+                    taken.add(new_)
+                    ren[p_] = new_
+                    prefix.append(ast.copy_location(ast.Assign(targets=[ast.Name(id=new_, ctx=ast.Store())], value=val), at))
+            for l_ in sorted(stored - set(pos_)):
+                if l_ in taken:
+                    new_ = f"{l_}__{g.name.strip('_')}"
+                    while new_ in taken:
+                        new_ += "_"
+                    taken.add(new_)
+                    ren[l_] = new_
+                else:
+                    taken.add(l_)
+
+            def subst_(stmts: list[ast.stmt]) -> list[ast.stmt]:
+                out_: list[ast.stmt] = []
+                for x in stmts:
+                    if isinstance(x, ast.Expr) and isinstance(x.value, ast.Yield):
+                        out_.append(ast.copy_location(ast.Assign(targets=[_clone(target)], value=x.value.value), x))
+                        out_ += _clone(body)
+                        continue
+                    for fld in ("body", "orelse"):
+                        blk = getattr(x, fld, None)
+                        if isinstance(blk, list) and blk and isinstance(blk[0], ast.stmt):
+                            setattr(x, fld, subst_(blk) or [ast.copy_location(ast.Pass(), x)])
+                    out_.append(x)
+                return out_
+
+            new_body = subst_(src_body)
+            lam_safe = set(ren)
+            for s_ in new_body:
+                for n_ in ast.walk(s_):
+                    if isinstance(n_, ast.Name) and n_.id in lam_safe and not any(isinstance(a_, ast.Lambda) and any(q.arg == n_.id for q in a_.args.args) for a_ in []):
+                        n_.id = ren[n_.id]
+            return prefix + new_body
+
+        def gen_block(stmts: list[ast.stmt]) -> list[ast.stmt]:
+            nonlocal changed
+            out_: list[ast.stmt] = []
+            for st in stmts:
+                if isinstance(st, (ast.FunctionDef, ast.AsyncFunctionDef, ast.ClassDef)):
+                    out_.append(st)
+                    continue
+                for fld in ("body", "orelse", "finalbody"):
+                    blk = getattr(st, fld, None)
+                    if isinstance(blk, list) and blk and isinstance(blk[0], ast.stmt):
+                        setattr(st, fld, gen_block(blk) or [ast.copy_location(ast.Pass(), st)])
+                got_ = None
+                if isinstance(st, ast.Expr) and isinstance(st.value, ast.Call) and isinstance(st.value.func, ast.Attribute) and st.value.func.attr in ("extend", "update") and isinstance(st.value.func.value, ast.Name) and len(st.value.args) == 1 and isinstance(st.value.args[0], ast.Call) and isinstance(st.value.args[0].func, ast.Name) and st.value.args[0].func.id in gens:
+                    tmp = "yielded"
+                    while tmp in taken:
+                        tmp += "_"
+                    taken.add(tmp)
+                    add_ = ast.copy_location(ast.Expr(value=ast.Call(func=ast.Attribute(value=_clone(st.value.func.value), attr="append" if st.value.func.attr == "extend" else "add", ctx=ast.Load()), args=[ast.Name(id=tmp, ctx=ast.Load())], keywords=[])), st)
+                    got_ = expand_gen(gens[st.value.args[0].func.id], st.value.args[0], ast.Name(id=tmp, ctx=ast.Store()), [add_], st)
+                elif isinstance(st, ast.For) and not st.orelse and isinstance(st.iter, ast.Call) and isinstance(st.iter.func, ast.Name) and st.iter.func.id in gens:
+                    got_ = expand_gen(gens[st.iter.func.id], st.iter, st.target, st.body, st)
+                if got_ is not None:
+                    out_ += got_
+                    changed = True
+                    continue
+                out_.append(st)
+            return out_
+
+        fn.body = gen_block(fn.body)
+        ast.fix_missing_locations(fn)
+        set_parents(fn)
+        for name, g in gens.items():
+            if not any(isinstance(n, ast.Name) and n.id == name and isinstance(n.ctx, ast.Load) for n in ast.walk(fn)):
+                for blk in _blocks(fn):
+                    if any(x is g for x in blk):
+                        blk.remove(g)
+                        if not blk:
+                            blk.append(ast.copy_location(ast.Pass(), g))
+                        changed = True
+                        break
     if not defs:
-        return False
+        return changed
 
     def bind(a: ast.arguments, call: ast.Call) -> dict[str, ast.expr] | None:
         pos = [p_.arg for p_ in [*a.posonlyargs, *a.args]]
@@ -1382,6 +1490,22 @@ def _inline_local_callables(view: FuncInfo) -> bool:
             if isinstance(st, ast.Try):
                 for h in st.handlers:
                     h.body = block(h.body) or [ast.copy_location(ast.Pass(), st)]
+            # `X.extend(g(a))` with a plain local function: `tmp = g(a)` first
+            if isinstance(st, ast.Expr) and isinstance(st.value, ast.Call) and isinstance(st.value.func, ast.Attribute) and len(st.value.args) == 1 and isinstance(st.value.args[0], ast.Call) and isinstance(st.value.args[0].func, ast.Name) and isinstance(defs.get(st.value.args[0].func.id), ast.FunctionDef):
+                tmp_ = f"result_of_{st.value.args[0].func.id.strip('_')}"
+                while tmp_ in taken:
+                    tmp_ += "_"
+                taken.add(tmp_)
+                pre = ast.copy_location(ast.Assign(targets=[ast.Name(id=tmp_, ctx=ast.Store())], value=st.value.args[0]), st)
+                st.value.args[0] = ast.copy_location(ast.Name(id=tmp_, ctx=ast.Load()), st)
+                got0 = body_of(defs[pre.value.func.id], pre.value, pre, want_value=True)
+                if got0 is not None:
+                    stmts0, value0 = got0
+                    pre.value = value0
+                    out += stmts0 + [pre, st]
+                    changed = True
+                    continue
+                st.value.args[0] = pre.value
             call = st.value if isinstance(st, (ast.Expr, ast.Assign, ast.AnnAssign)) and isinstance(getattr(st, "value", None), ast.Call) else None
             if call is not None and isinstance(call.func, ast.Name) and isinstance(defs.get(call.func.id), ast.FunctionDef):
                 got = body_of(defs[call.func.id], call, st, want_value=not isinstance(st, ast.Expr))
@@ -2645,6 +2769,8 @@ def _iter_elements(e: ast.expr, single: dict[str, ast.expr]) -> list[tuple[ast.A
     if isinstance(e, ast.Name) and e.id in single and isinstance(strip(single[e.id]), _COMPS):
         c = strip(single[e.id])
         return [(c.elt, c)]
+    if isinstance(e, ast.Name) and e.id in single and isinstance(single[e.id], ast.Tuple) and not single[e.id].elts:
+        return []  # `nothing = ()` .. `W.extend(nothing)`: no element (an empty tuple stays empty)
     if isinstance(e, ast.BinOp) and isinstance(e.op, (ast.Add, ast.BitOr)):
         return _iter_elements(e.left, single) + _iter_elements(e.right, single)
     if isinstance(e, ast.IfExp):
@@ -2740,6 +2866,8 @@ def _worklist_sources(fn: ast.AST, worklist_expr: ast.AST, outer: ast.AST, singl
             return sources_of(e.args[0])
         if isinstance(e, ast.Name) and e.id in single and isinstance(strip(single[e.id]), (ast.List, ast.Tuple, ast.Set)) and depth < 3:
             return sources_of(single[e.id], depth + 1)  # `start_nodes = [node]` .. `W = list(start_nodes)`
+        if isinstance(e, ast.Name) and e.id in single and depth < 3 and isinstance(strip(single[e.id]), ast.Name) and strip(single[e.id]) is not single[e.id]:
+            return sources_of(single[e.id], depth + 1)  # `start = list(own)` .. `W = list(start)`: a copy of a copy
         if isinstance(e, _COMPS) and len(e.generators) == 1 and isinstance(e.elt, ast.Name) and isinstance(e.generators[0].target, ast.Name) and e.elt.id == e.generators[0].target.id and depth < 3:
             # a filtered copy `[n for n in S if c]`: starts from (part of) S; which part is recorded for the rules
             filters.extend((c, e.generators[0].target.id) for c in e.generators[0].ifs)
